@@ -11,8 +11,13 @@ user-assigned values survive clear() and edits of other elements and are what th
 returns; an element is treated as an input iff a value was assigned to it and it was not cleared since (a ledger
 kept from the operations alone, compared with the implementation's input marks after every operation); with the recalculation option on, the former leaf dependents are held again with
 the values lazy recomputation gives.
+Correspondence with the recalculation option on (`recalc_correspondence`): the same history prefixed with
+`recalc on` on the implementation and on the mechanism model (`St.setValueRecalc`: the lazy assignment followed
+by a top-level evaluation of every former leaf dependent) - result of every op, values with input marks, trace
+graph and reference graph after every op.
 """
 from .. import exec_props as X
+from .. import execworld
 from ..execworld import ExecImpl, node_s, val_s, parse_val
 from ..impl import mx, quiet
 
@@ -67,8 +72,55 @@ def check_inputs(impl, inputs, op, hist, out):
     return True
 
 
+RECALC_OBS = ["values", "graph", "refgraph"]
+
+
+def recalc_correspondence(case, out, stats):
+    """The history with the recalculation option on, run on modelx and on the mechanism model.  modelx iterates over a
+    `set` of target nodes: when a recomputation FAILS and there are several targets, which of the others were evaluated
+    before the failure is not determined by the program - the comparison of that history stops there (counted)."""
+    ops = [["recalc", "on"]] + [list(o) for o in case["ops"]]
+    rcase = dict(case, ops=ops)
+    recs = execworld.run_both(case["cells"], case["refs"], case["n_rn"], case["maxdepth"], ops, observe=RECALC_OBS)
+    stats["recalc_corr_histories"] += 1
+    for k, rec in enumerate(recs):
+        op = rec["op"]
+        if op[0] == "set":
+            stats["recalc_corr_sets"] += 1
+            if "err Formula" in (rec["impl"], rec["model"]):
+                stats["recalc_corr_failed_recomputations"] += 1
+                # the former leaf dependents, from the implementation's own graph before the assignment
+                _, edges = parse_graph(recs[k - 1]["obs"]["graph"][0])
+                eq = op.index("=")
+                key = X.canon_key(case, int(op[1]), op[2:eq])
+                n = None if key is None else node_s(int(op[1]), key)
+                ds = descendants(edges, n) if n is not None else set()
+                leaves = [x for x in ds if not x.endswith("*") and not any(a == x for a, _ in edges)]
+                if len(leaves) > 1:
+                    stats["recalc_corr_order_dependent_stops"] += 1
+                    return
+            elif rec["impl"] == "ok" and rec["obs"]["values"][0] != recs[k - 1]["obs"]["values"][0]:
+                _, edges = parse_graph(recs[k - 1]["obs"]["graph"][0])
+                eq = op.index("=")
+                key = X.canon_key(case, int(op[1]), op[2:eq])
+                n = None if key is None else node_s(int(op[1]), key)
+                if n is not None and descendants(edges, n):
+                    stats["recalc_corr_sets_with_dependents"] += 1
+        if rec["impl"] != rec["model"]:
+            out.disagree(X.case_json(rcase), k, rec["impl"], rec["model"], layer="exec:recalc:result")
+            return
+        for w in RECALC_OBS:
+            a, b = rec["obs"][w]
+            if a != b:
+                out.disagree(X.case_json(rcase), k, a, b, layer="exec:recalc:" + w)
+                return
+
+
 def oracle(case, recs, out, stats):
     nontrivial = False
+    if case["ops"] and case["ops"][0][0] == "recalc":
+        return False        # a replayed recalculating history: what is replayed is the correspondence (`compare`)
+    recalc_correspondence(case, out, stats)
     for recalc in (False, True):
         impl = ExecImpl(case["cells"], case["refs"], case["n_rn"], case["maxdepth"], log=True)
         inputs, inputs_ok = set(), True
@@ -326,12 +378,44 @@ def spelled_edit_cases():
     return cases
 
 
+def recalc_cases():
+    """Scenario family for the recalculation option = the example programs of `lean/MxModel/Props/C06.lean` (`kEnv`):
+    c0 = 1, c1 = c0() * 10, c2 = c1() + 1 if c0() < 5 else 0, c3 = c1() + 100, c4 = 7, c5 = 1 if c0() < 5 else raise,
+    c6 = c0() + 100.  Two leaves recomputed at once; a former non-leaf dependent that the new computation does not
+    call; a failing recomputation with one target (compared) and with two (the comparison stops: target order)."""
+    L, C = (lambda i: ("lit", i)), (lambda c: ("call", c, []))
+    cells = [
+        {"id": 0, "body": L(1)},
+        {"id": 1, "body": ("mul", C(0), L(10))},
+        {"id": 2, "body": ("if", ("lt", C(0), L(5)), ("add", C(1), L(1)), L(0))},
+        {"id": 3, "body": ("add", C(1), L(100))},
+        {"id": 4, "body": L(7)},
+        {"id": 5, "body": ("if", ("lt", C(0), L(5)), L(1), ("raise", 0))},
+        {"id": 6, "body": ("add", C(0), L(100))},
+    ]
+    for c in cells:
+        c.update(cached=True, allow_none=False, nparams=0)
+    ev = lambda *ids: [["eval", str(i)] for i in ids]      # noqa: E731
+    hists = {
+        "two leaves": ev(2, 3, 4) + [["set", "0", "=", "2"]] + ev(1, 2, 3, 4),
+        "non-leaf dependent not called again": ev(2) + [["set", "0", "=", "9"]] + ev(1, 2),
+        "failing recomputation, one target": ev(5) + [["set", "0", "=", "9"]] + ev(5, 0) + [["set", "0", "=", "3"]] + ev(5),
+        "failing recomputation, two targets": ev(6, 5) + [["set", "0", "=", "9"]] + ev(6, 5),
+        "overwrite of an input with dependents": ev(3, 2) + [["set", "0", "=", "2"], ["set", "0", "=", "4"], ["set", "1", "=", "5"]] + ev(3, 2),
+    }
+    return [{"cells": [dict(c) for c in cells], "refs": {0: 1, 1: 2, 2: 3, 3: 4}, "n_rn": 2, "maxdepth": None,
+             "ops": ops, "label": "recalc/" + label} for label, ops in hists.items()]
+
+
 def run(ctx, out):
-    stats = X.run_family(ctx, out, CFG, oracle, 120, 2000, structured=scenario_cases() + spelled_edit_cases())
+    stats = X.run_family(ctx, out, CFG, oracle, 120, 2000, structured=scenario_cases() + spelled_edit_cases() + recalc_cases())
     overwrite_equal(out, stats)
     out.coverage["input_distribution"]["overwrite_equal_scenarios"] = stats["overwrite_equal_scenarios"]
-    out.assumptions.append("the recalculation option is checked by the implementation-only oracle; the Lean "
-                           "mechanism model covers the option-off path of set_value_from_key")
+    out.assumptions.append("recalculation option on: modelx evaluates the former leaf dependents in the iteration "
+                           "order of a Python set; the model takes the order of its graph search.  When a "
+                           "recomputation fails and there are several targets the comparison of that history stops "
+                           "(%d of %d recalculating histories)" % (stats["recalc_corr_order_dependent_stops"],
+                                                                 stats["recalc_corr_histories"]))
 
 
 def replay(ctx, payload, out):
